@@ -796,6 +796,12 @@ func (w *Worker) lowerRope(parts []ropePart) []ropePart {
 		switch p.kind {
 		case rkLit:
 			p.lit = strings.ToLower(p.lit)
+		case rkEnum:
+			lv := make([]string, len(p.vocab))
+			for j, v := range p.vocab {
+				lv[j] = strings.ToLower(v)
+			}
+			p.vocab = lv
 		case rkAtom:
 			if w.lowered == nil {
 				w.lowered = map[*term]*term{}
